@@ -39,7 +39,7 @@ fn check(kind: &str, arg: &str) -> Option<Cex> {
             let r = guarded(|| { let r = next_permutation(&mut w); (r, w.clone()) });
             let want = if pos + 1 < all.len() { (true, all[pos + 1].clone()) } else { (false, all[0].clone()) };
             if r != Ok(want.clone()) { return mk(format!("next_permutation({:?}) = {:?}", v, r), format!("{:?}", want)); }
-            let got = guarded(|| iter_permutations(v.clone()).collect::<Vec<_>>());
+            let got = guarded(|| iter_permutations(v.clone()).take(all.len() + 2).collect::<Vec<_>>());
             if got != Ok(all.clone()) { return mk(format!("iter_permutations({:?}) yields {:?} items", v, got.map(|g| g.len())), format!("the {} distinct arrangements in lexicographic order", all.len())); } }
         "nb" => { let p: Vec<usize> = arg.split(',').map(|x| x.parse().unwrap_or(0)).collect(); let (n, m, i, j) = (p[0], p[1], p[2], p[3]);
             let f = |offs: &[(isize, isize)]| -> Vec<(usize, usize)> { offs.iter().filter_map(|&(x, y)| { let (a, b) = (i as isize + x, j as isize + y); if a >= 0 && a < n as isize && b >= 0 && b < m as isize { Some((a as usize, b as usize)) } else { None } }).collect() };
